@@ -167,6 +167,7 @@ def main(argv):
         import thorough as th_mod
         extra.update(th_mod.run_witness(ctx, prop))
         extra.update(th_mod.replay_seeds(ctx, prop, run_rules))
+        extra.update(th_mod.clippy_xref(ctx, prop))
 
     known = load_known()
     viol_dir = os.path.join(VERIF, "evidence", "%s.violations" % prop)
